@@ -514,7 +514,7 @@ type vfCountingServerStream struct {
 
 func vfRoutingTable(res *vrt.Result) (evals, nontrivial int64) {
 	for _, local := range []string{"present", "closed", "absent"} {
-		for _, remote := range []string{"owner-with-stream", "owner-peer-without-stream", "owner-unknown-peer", "unknown", "owner-without-address"} {
+		for _, remote := range []string{"owner-with-stream", "owner-peer-without-stream", "owner-peer-with-sibling-streams-only", "owner-unknown-peer", "unknown", "owner-without-address"} {
 			for _, kind := range []string{"message", "ack", "ack-noforward"} {
 				tc := vfRouteCase{local, remote, kind}
 				var got bool
@@ -568,6 +568,16 @@ func vfRoutingTable(res *vrt.Result) (evals, nontrivial int64) {
 						// the peer is known to the manager through a stream for another shard pair
 						other := history.ClusterShardID{ClusterID: 2, ShardID: 9}
 						mgr.RegisterSender("n2", other, source, &intraProxyStreamSender{logger: log.NewNoopLogger(), shardManager: sm, peerNodeName: "n2", targetShardID: other, sourceShardID: source, sourceStreamServer: ss})
+					case "owner-peer-with-sibling-streams-only":
+						// both directions of a stream towards the peer exist - for another target shard and the same source shard,
+						// and for the same target shard and another source shard - but none for this pair
+						for _, pair := range [][2]history.ClusterShardID{{{ClusterID: 2, ShardID: 9}, source}, {target, {ClusterID: 1, ShardID: 9}}} {
+							ot, os := pair[0], pair[1]
+							mgr.RegisterSender("n2", ot, os, &intraProxyStreamSender{logger: log.NewNoopLogger(), shardManager: sm, peerNodeName: "n2", targetShardID: ot, sourceShardID: os, sourceStreamServer: ss})
+							mgr.streamsMu.Lock()
+							mgr.peers["n2"].receivers[peerStreamKey{targetShard: ot, sourceShard: os}] = &intraProxyStreamReceiver{logger: log.NewNoopLogger(), shardManager: sm, intraMgr: mgr, peerNodeName: "n2", targetShardID: ot, sourceShardID: os, streamClient: cs}
+							mgr.streamsMu.Unlock()
+						}
 					}
 					func() {
 						defer func() {
@@ -906,7 +916,7 @@ func TestVerifC09(t *testing.T) {
 	res.Set("routing_table_cases", rEvals)
 	res.Set("routing_table_cases_undelivered_or_inconsistent", rNon)
 	res.Set("exhaustive", exhaustive)
-	res.Set("explanation", "convergence: every transition calls the real RegisterShard / UnregisterShard / shardDelegate.NotifyMsg / MergeRemoteState / LocalState / shardEventDelegate.NotifyLeave of 2-3 real shardManagerImpl instances; announcements, state snapshots and leave notifications are in-flight objects the explorer delivers in every order, at most one duplicate each; from every state everything in flight is delivered, live pairs exchange fresh state, and the ownership oracle is evaluated. routing: every combination of {local stream present, closed-but-registered, absent} x {remote owner with stream, owner's peer known without a stream for this pair, owner without any peer state, unknown, owner without a configured address} x {message, ack with forwarding, ack without} through the real DeliverMessagesToShardOwner / DeliverAckToShardOwner with fake intra-proxy streams; routing histories: every sequence (depth 4, thorough 5) of {a peer's snapshot claims the shard, no longer claims it, a peer leaves} for two peers with live intra-proxy streams, a message and an ack routed after every event: exactly one copy to a current claimant, or reported undelivered when there is none")
+	res.Set("explanation", "convergence: every transition calls the real RegisterShard / UnregisterShard / shardDelegate.NotifyMsg / MergeRemoteState / LocalState / shardEventDelegate.NotifyLeave of 2-3 real shardManagerImpl instances; announcements, state snapshots and leave notifications are in-flight objects the explorer delivers in every order, at most one duplicate each; from every state everything in flight is delivered, live pairs exchange fresh state, and the ownership oracle is evaluated. routing: every combination of {local stream present, closed-but-registered, absent} x {remote owner with stream, owner's peer known without a stream for this pair, owner's peer with streams in both directions for sibling pairs only (other target / other source), owner without any peer state, unknown, owner without a configured address} x {message, ack with forwarding, ack without} through the real DeliverMessagesToShardOwner / DeliverAckToShardOwner with fake intra-proxy streams; routing histories: every sequence (depth 4, thorough 5) of {a peer's snapshot claims the shard, no longer claims it, a peer leaves} for two peers with live intra-proxy streams, a message and an ack routed after every event: exactly one copy to a current claimant, or reported undelivered when there is none")
 	res.Sample(summary)
 	res.Assume("the sending half of an announcement (broadcastShardChange needs a live memberlist) is transcribed: one message per instance listed in the sender's remoteNodeStates, stamped with a strictly increasing clock at broadcast time; memberlist itself (reliable send, push/pull, leave detection) is the environment")
 	res.Assume("one clock for all instances (no skew); a claim (RegisterShard + creating its announcements) is an atomic step; every instance knows every other before the first claim")
